@@ -15,6 +15,7 @@ Definition case_docs (c : scase) : list (dkind * json) :=
   | MutPlan j _ => [(DPlan, j)]
   | MutConfig j _ => [(DConfig, j)]
   | Rev _ _ _ _ => []
+  | ValPlan _ _ => []
   end.
 
 Definition is_some {A} (o : option A) : bool := match o with Some _ => true | None => false end.
